@@ -36,8 +36,8 @@ Decorate(its, how) ==
           [] how = "cbfirst" -> IF n = 1 THEN [its[n] EXCEPT !.cb = Tag(n, "lead")] ELSE its[n]
           [] how = "cslast" -> IF n = Len(its) THEN [its[n] EXCEPT !.cs = Tag(n, "eol")] ELSE its[n]
           [] how = "all" -> [its[n] EXCEPT !.cb = Tag(n, "lead"), !.cs = Tag(n, "eol")]]
-Forms == IF LayoutSet = "full" THEN {"lines", "block", "blockc", "split"} ELSE {"lines", "blockc", "split"}
-Hows == IF LayoutSet = "full" THEN {"none", "cbfirst", "cslast", "all"} ELSE {"none", "all"}
+Forms == IF LayoutSet \in {"full", "wf"} THEN {"lines", "block", "blockc", "split"} ELSE {"lines", "blockc", "split"}
+Hows == IF LayoutSet \in {"full", "wf"} THEN {"none", "cbfirst", "cslast", "all"} ELSE {"none", "all"}
 Arrange(v, its, form) ==
     CASE form = "lines"  -> [n \in 1..Len(its) |-> Line1(v, its[n])]
       [] form = "block"  -> <<Stmt(v, "block", "", its)>>
@@ -75,6 +75,14 @@ Mixed == IF Kind = "mod"
            Line1("replace", Rep("example.com/a", "v1.0.0", "example.com/x", "v1.0.0", "", "")),
            Stmt("replace", "block", "", <<Rep("example.com/a", "", "../z", "", "", "r1"), Rep("example.com/a", "v1.0.0", "../w", "", "", "")>>),
            Stmt("godebug", "block", "", <<Gdb("k1", "v1", "", ""), Gdb("k1", "v2", "", "")>>)>>}
+
+\* well-formed files for C02 / C20: the layout with the directive values it denotes
+Special == IF Kind = "mod"
+    THEN {<<Stmt("require", "block", "", <<Req("module", "v1.0.0", FALSE, "", "")>>), Line1("module", Val("example.com/m", "", ""))>>,
+          <<Stmt("exclude", "block", "", <<Exc("example.com/a", "v1.0.0", "", ""), Exc("module", "v1.1.0", "", "")>>), Line1("module", Val("example.com/m", "", "")), Line1("go", Val("1.21", "", ""))>>,
+          <<Line1("go", Val("1.20", "", "")), Stmt("replace", "block", "", <<Rep("module", "", "../m", "", "", "")>>), Line1("module", Val("example.com/m/v2", "", "modeol"))>>,
+          <<Line1("module", Val("example.com/m", "", "")), Stmt("require", "block", "", <<Req("module", "v1.0.0", TRUE, "", "")>>)>>}
+    ELSE {}
 
 \* ------------------------------------------------------------ operation instances
 Pad4(a) == [i \in 1..4 |-> IF i <= Len(a) THEN a[i] ELSE ""]
@@ -121,10 +129,10 @@ AllOps == IF Kind = "mod" THEN ModOps ELSE WorkOps
 Init == phase = "hub" /\ verb = "" /\ lay = <<>> /\ m = EmptyFile(Kind) /\ ops = <<>> /\ trail = <<>>
 Next ==
     \/ /\ phase = "hub" /\ phase' = "verb"
-       /\ verb' \in (IF LayoutSet = "pairs" THEN {"mixed"} ELSE FocusVerbs)
+       /\ verb' \in (IF LayoutSet = "pairs" THEN {"mixed"} ELSE IF LayoutSet = "wf" THEN FocusVerbs \cup {"mixed"} ELSE FocusVerbs)
        /\ UNCHANGED <<lay, m, ops, trail>>
     \/ /\ phase = "verb" /\ phase' = "run"
-       /\ lay' \in (IF verb = "mixed" THEN Mixed ELSE LayoutsOf(verb))
+       /\ lay' \in (IF verb = "mixed" THEN Mixed \cup Special ELSE LayoutsOf(verb))
        /\ m' = Flatten(lay')
        /\ UNCHANGED <<verb, ops, trail>>
     \/ /\ phase = "run" /\ Len(ops) < MaxOps
@@ -143,6 +151,9 @@ ErrorsChangeNothing == \A i \in 1..Len(trail) : trail[i].err => trail[i].m = (IF
 BulkExact == (phase = "run" /\ Len(ops) >= 1 /\ ops[Len(ops)].name \in {"SetRequire", "SetRequireSeparateIndirect"}) =>
     LET l == ops[Len(ops)].l IN
     /\ SameBag(ReqV(m.require), [i \in 1..Len(l) |-> <<l[i].p, l[i].v, l[i].ind>>])
+
+EmitWf == (phase = "run" /\ Len(ops) = 0) =>
+    PrintT(ToJson([w |-> "modsyntax", k |-> "wf", in |-> [kind |-> Kind, layout |-> lay], exp |-> [m |-> Flatten(lay)]]))
 
 Emit == (phase = "run" /\ Len(ops) >= 1) =>
     PrintT(ToJson([w |-> "modfile", k |-> "session", in |-> [kind |-> Kind, layout |-> lay, ops |-> ops], exp |-> [init |-> Flatten(lay), after |-> trail]]))
